@@ -303,7 +303,10 @@ impl<'a, R: CharRead> Lexer<'a, R> {
                 })
             }
         } else {
-            Err(self.unexpected_char(c))
+            // consume the character, or every later read would meet it again.
+            let err = self.unexpected_char(c);
+            self.skip_char(c);
+            Err(err)
         }
     }
 
